@@ -170,14 +170,53 @@ def design_check(ctx):
     return ev
 
 
+def model_outcomes(ctx, events):
+    """What does the encoder MODEL (spec/DMEnc.tla: the implementation's algorithm, Annex P look-ahead included) do with these texts under
+    their hints?  Returns {index: set of (pc, mode)}.  Used to classify a refusal of the real encoder: one that the model makes too is
+    the algorithm's doing (a recorded finding), one that the model does not make is an implementation slip."""
+    import collections
+    groups = collections.defaultdict(list)
+    for i, e in enumerate(events):
+        if all(0 <= c <= 255 for c in e["text"]) and 0 < len(e["text"]) <= 400:
+            groups[(e.get("shape", 0), tuple(e.get("mn", ())), tuple(e.get("mx", ())))].append(i)
+    out = collections.defaultdict(set)
+    for (shape, mn, mx), idx in groups.items():
+        tup = lambda t: "<<%s>>" % ", ".join(map(str, t))
+        mod = "---- MODULE DMEncFix ----\nEXTENDS DMEnc\nHMn == %s\nHMx == %s\n====\n" % (tup(mn), tup(mx))
+        cfg = ("SPECIFICATION Spec\nCONSTANTS\n  Alphabet = {0}\n  MaxLen = 1\n  Shape = %d\n  Mn <- HMn\n  Mx <- HMx\n  EmitAll = TRUE\n"
+               "  FixedMode = TRUE\nCHECK_DEADLOCK FALSE\n" % shape)
+        res = vlib.run_tlc(ctx, "DMEncFix", "DMEncFix", files={"DMEncFix.tla": mod, "DMEncFix.cfg": cfg,
+                           "fixed.ndjson": [dict(msg=events[i]["text"]) for i in idx]}, workers=4, timeout=1500, xmx="6g")
+        bymsg = collections.defaultdict(set)
+        for o in vlib.tlc_printed(res):
+            bymsg[tuple(o["msg"])].add((o["pc"], o.get("mode", -1)))
+        for i in idx:
+            out[i] |= bymsg.get(tuple(events[i]["text"]), set())
+    return out
+
+
+def classify_refusals(ctx, obs):
+    """annotate refused hl events with the model's verdict (model_refuses, model_mode) before they are matched against known findings"""
+    todo = [o for o in obs if o.get("op") == "hl" and o.get("cwerr") == 1 and not o.get("panic") and not o.get("hang")]
+    if not todo or len(todo) > 3000:
+        return
+    res = model_outcomes(ctx, todo)
+    for i, o in enumerate(todo):
+        errs = [m for (pc, m) in res.get(i, ()) if pc == "error"]
+        o["model_refuses"] = 1 if errs else 0
+        o["model_mode"] = errs[0] if errs else -1
+
+
 def preds():
     # call-site classification of a refusal, from the library's own error text (used only to match known findings)
-    return {"x12_illegal_character_refusal": lambda e: e.get("cwerr") == 1 and "Illegal character" in e.get("cwmsg", "")
+    # (model_refuses / model_mode are set by classify_refusals: the encoder model of spec/DMEnc.tla refuses the same text under the same
+    # hints, in that mode - no reliance on the wording of the library's error message)
+    return {"x12_illegal_character_refusal": lambda e: e.get("cwerr") == 1 and e.get("model_refuses") == 1 and e.get("model_mode") == 3
             and "refusal only when it does not fit" in e.get("failed", ()),
             # the refusal was PREDICTED by the encoder model (spec/DMEnc.tla reaches pc = "error" on this message under these hints although
             # the plain ASCII encodation fits) and is raised where the model raises it: the symbol-size feedback of a mode encoder
-            "refusal_predicted_by_encoder_model": lambda e: e.get("tag") == "model-candidate" and e.get("cwerr") == 1
-            and "Can't find a symbol arrangement" in e.get("cwmsg", "") and e.get("failed") == ["refusal only when it does not fit"]}
+            "refusal_predicted_by_encoder_model": lambda e: e.get("cwerr") == 1 and e.get("model_refuses") == 1 and e.get("model_mode") != 3
+            and e.get("failed") == ["refusal only when it does not fit"]}
 
 
 def run(ctx):
@@ -185,8 +224,8 @@ def run(ctx):
     ctx.note("MC_DM: %d states (symbol table / capacity order used to judge size choice and refusals)" % res.generated)
     cand = design_check(ctx)
     if cand:
-        dmlib.judge(ctx, cand[:5000], "C02 candidate from the encoder model", preds=preds())
-    dmlib.judge(ctx, workload(ctx), "C02 encode/decode", preds=preds())
+        dmlib.judge(ctx, cand[:5000], "C02 candidate from the encoder model", preds=preds(), annotate=classify_refusals)
+    dmlib.judge(ctx, workload(ctx), "C02 encode/decode", preds=preds(), annotate=classify_refusals)
     ctx.exhaustive = False
     ctx.extra["exhaustive_over"] = "all strings of length <= %d over 11 character classes; all strings up to length %d over four 4-5 class families%s" % (
         3 if ctx.quick else 5, 6 if ctx.quick else 8, " (longest length sampled 1 in 4)" if ctx.quick else "")
@@ -198,4 +237,4 @@ def run(ctx):
 
 
 def replay(ctx, path):
-    return dmlib.replay(ctx, path, preds=preds())
+    return dmlib.replay(ctx, path, preds=preds(), annotate=classify_refusals)
